@@ -92,6 +92,8 @@ Definition starts1 (s : str) (c : Z) : bool := match s with x :: _ => x =? c | [
 Definition starts2 (s : str) (c d : Z) : bool := match s with x :: y :: _ => (x =? c) && (y =? d) | _ => false end.
 (* cmatch(t,i,'(') or cmatch2(t,i,':','(') *)
 Definition starts_call (s : str) : bool := starts1 s 40 || starts2 s 58 40.
+(* k == ii - 1 for two positions given as suffixes of the same text *)
+Definition adjacent (k ii : str) : bool := Nat.eqb (length k) (S (length ii)).
 Definition cexpect (s : str) (c : Z) : res str :=
   match s with x :: r => if x =? c then Ok r else Err EChar | [] => Err EChar end.
 
@@ -261,20 +263,28 @@ Definition read_list_loop_body (f : nat) (R : lexfuns) (delim : Z) (s : str) (ac
       let* s3 := skip f true s1 in
       l_read_list_loop R delim s3 (q :: acc).
 
-Definition lex_bottom : lexfuns := {|
-  l_kg_read := fun _ _ _ => OOF; l_read_list := fun _ _ => OOF; l_read_list_loop := fun _ _ _ => OOF |}.
-
-Fixpoint lex_iter (fuel : nat) : lexfuns :=
+(* tying the knot: kg_read (S f) = kg_read_body f (the three functions at fuel f) *)
+Fixpoint kg_read (fuel : nat) (read_neg ign : bool) (s : str) {struct fuel} : res (str * ast) :=
   match fuel with
-  | O => lex_bottom
-  | S f => let R := lex_iter f in
-           {| l_kg_read := kg_read_body f R; l_read_list := read_list_body f R;
-              l_read_list_loop := read_list_loop_body f R |}
+  | O => OOF
+  | S f => kg_read_body f {| l_kg_read := kg_read f; l_read_list := read_list f; l_read_list_loop := read_list_loop f |}
+             read_neg ign s
+  end
+with read_list (fuel : nat) (delim : Z) (s : str) {struct fuel} : res (str * list ast) :=
+  match fuel with
+  | O => OOF
+  | S f => read_list_body f {| l_kg_read := kg_read f; l_read_list := read_list f; l_read_list_loop := read_list_loop f |}
+             delim s
+  end
+with read_list_loop (fuel : nat) (delim : Z) (s : str) (acc : list ast) {struct fuel} : res (str * list ast) :=
+  match fuel with
+  | O => OOF
+  | S f => read_list_loop_body f {| l_kg_read := kg_read f; l_read_list := read_list f; l_read_list_loop := read_list_loop f |}
+             delim s acc
   end.
 
-Definition kg_read (fuel : nat) := l_kg_read (lex_iter fuel).
-Definition read_list (fuel : nat) := l_read_list (lex_iter fuel).
-Definition read_list_loop (fuel : nat) := l_read_list_loop (lex_iter fuel).
+Definition lexrec (f : nat) : lexfuns :=
+  {| l_kg_read := kg_read f; l_read_list := read_list f; l_read_list_loop := read_list_loop f |}.
 
 (* ---------------------------------------------------------------- .comment *)
 Fixpoint find_sub (a s : str) : option nat :=
@@ -380,27 +390,27 @@ Record parsefuns := {
 }.
 
 (* KlongInterpreter.prog: the while loop *)
-Definition prog_loop_body (f : nat) (R : parsefuns) (ign : bool) (s : str) (acc : list ast) : res (str * list ast) :=
+Definition prog_loop_body (f : nat) (L : lexfuns) (R : parsefuns) (ign : bool) (s : str) (acc : list ast) : res (str * list ast) :=
   match s with
   | [] => Ok (s, rev acc)
   | _ :: _ =>
       let* (s1, q) := p_expr R ign s in
       if is_none q || str_is q [59] then p_prog_loop R ign s1 acc
       else
-        let* (ii, c) := kg_read f false ign s1 in
+        let* (ii, c) := l_kg_read L false ign s1 in
         if str_is c [59] then p_prog_loop R ign ii (q :: acc) else Ok (s1, rev (q :: acc))
   end.
 
 (* KlongInterpreter._expr up to its while loop *)
-Definition expr_body (f : nat) (R : parsefuns) (ign : bool) (s : str) : res (str * ast) :=
+Definition expr_body (f : nat) (L : lexfuns) (R : parsefuns) (ign : bool) (s : str) : res (str * ast) :=
   let* (s1, a) := p_factor R ign s in
   if is_none a || str_is a [59] then Ok (s1, a)
   else
-    let* (ii, aa) := kg_read f false ign s1 in
+    let* (ii, aa) := l_kg_read L false ign s1 in
     p_expr_loop R ign s1 a ii (mark_dyad aa).
 
 (* the while loop of _expr: i, a = current position and left operand; (ii, aa) = the token peeked at i *)
-Definition expr_loop_body (f : nat) (R : parsefuns) (ign : bool) (i : str) (a : ast) (ii : str) (aa : ast) : res (str * ast) :=
+Definition expr_loop_body (f : nat) (L : lexfuns) (R : parsefuns) (ign : bool) (i : str) (a : ast) (ii : str) (aa : ast) : res (str * ast) :=
   if is_op aa || is_sym aa || str_is aa [123] then
     let* (i1, aa1) :=
       if str_is aa [123] then p_fn_lit R ii
@@ -413,13 +423,13 @@ Definition expr_loop_body (f : nat) (R : parsefuns) (ign : bool) (i : str) (a : 
       | Some av => p_apply_adverbs R i3 aa1 av 2%nat true a
       | None => let* (i5, aaa) := p_expr R ign i1 in Ok (i5, AFn aa1 (APy [a; aaa]) 2)
       end in
-    let* (ii2, aa2) := kg_read f false ign i4 in
+    let* (ii2, aa2) := l_kg_read L false ign i4 in
     p_expr_loop R ign i4 a1 ii2 aa2
   else if ign && str_is a [10] then let* i1 := skip f true i in Ok (i1, a)
   else Ok (i, a).
 
 (* the text after '{' up to the KGFn/KGCall built from it (same code in _factor and _expr) *)
-Definition fn_lit_body (f : nat) (R : parsefuns) (s : str) : res (str * ast) :=
+Definition fn_lit_body (f : nat) (L : lexfuns) (R : parsefuns) (s : str) : res (str * ast) :=
   let* (s2, p) := p_prog_loop R true s [] in
   let a1 := match p with [x] => x | _ => APy p end in
   let* s3 := skip f true s2 in
@@ -438,13 +448,13 @@ Definition adverb_tail (R : parsefuns) (s0 : str) (a0 : ast) : res (str * ast) :
   end.
 
 (* KlongInterpreter._factor *)
-Definition factor_body (f : nat) (R : parsefuns) (ign : bool) (s : str) : res (str * ast) :=
+Definition factor_body (f : nat) (L : lexfuns) (R : parsefuns) (ign : bool) (s : str) : res (str * ast) :=
   let* ii := skip f ign s in
   if starts2 ii 91 59 then
     let* s0 := skip f true (tl (tl ii)) in
     let* (s1, ex) := p_expr_array_loop R s0 [] in Ok (s1, AExprArr ex)
   else
-    let* (s1, a) := kg_read f false ign s in
+    let* (s1, a) := l_kg_read L false ign s in
     if is_none a then Ok (s1, a)
     else if str_is a [123] then
       let* (s2, a2) := p_fn_lit R s1 in adverb_tail R s2 a2
@@ -475,7 +485,7 @@ Definition factor_body (f : nat) (R : parsefuns) (ign : bool) (s : str) : res (s
     else Ok (s1, a).
 
 (* KlongInterpreter._apply_adverbs *)
-Definition apply_adverbs_body (f : nat) (R : parsefuns) (s : str) (a : ast) (aa : str) (arity : nat) (dyad : bool) (dv : ast)
+Definition apply_adverbs_body (f : nat) (L : lexfuns) (R : parsefuns) (s : str) (a : ast) (aa : str) (arity : nat) (dyad : bool) (dv : ast)
   : res (str * ast) :=
   let aa_ar := adverb_arity E aa arity in
   let '(s1, more) := peek_more s in
@@ -485,25 +495,24 @@ Definition apply_adverbs_body (f : nat) (R : parsefuns) (s : str) (a : ast) (aa 
   Ok (s2, ACall (APy (arr ++ [if dyad then APy [dv; e] else e])) ANone (if dyad then 2 else 1)%nat).
 
 (* KlongInterpreter._read_fn_args up to its while loop *)
-Definition read_fn_args_body (f : nat) (R : parsefuns) (s : str) : res (str * list ast) :=
+Definition read_fn_args_body (f : nat) (L : lexfuns) (R : parsefuns) (s : str) : res (str * list ast) :=
   let* s1 := (if starts1 s 40 then Ok (tl s) else if starts2 s 58 40 then Ok (tl (tl s)) else Err EChar) in
   if starts1 s1 41 then Ok (tl s1, [])
   else p_fn_args_loop R s1 s1 [].
 
 (* the `while True` of _read_fn_args; k = position after '(' or after the last ';' *)
-Definition fn_args_loop_body (f : nat) (R : parsefuns) (s k : str) (acc : list ast) : res (str * list ast) :=
-  let* (ii, c) := kg_read f false true s in
-  let adj := Nat.eqb (length k) (S (length ii)) in
-  if str_is c [59] then p_fn_args_loop R ii ii (if adj then ANone :: acc else acc)
+Definition fn_args_loop_body (f : nat) (L : lexfuns) (R : parsefuns) (s k : str) (acc : list ast) : res (str * list ast) :=
+  let* (ii, c) := l_kg_read L false true s in
+  if str_is c [59] then p_fn_args_loop R ii ii (if adjacent k ii then ANone :: acc else acc)
   else if str_is c [41] then
-    let* s' := cexpect s 41 in Ok (s', rev (if adj then ANone :: acc else acc))
+    let* s' := cexpect s 41 in Ok (s', rev (if adjacent k ii then ANone :: acc else acc))
   else
     let* (s1, a) := p_expr R true s in
     if is_none a then let* s' := cexpect s1 41 in Ok (s', rev acc)
     else p_fn_args_loop R s1 k (a :: acc).
 
 (* parser.read_cond *)
-Definition read_cond_body (f : nat) (R : parsefuns) (s : str) : res (str * ast) :=
+Definition read_cond_body (f : nat) (L : lexfuns) (R : parsefuns) (s : str) : res (str * ast) :=
   let* (s1, n1) := p_expr R true s in
   let* s2 := cexpect s1 59 in
   let* (s3, n2) := p_expr R true s2 in
@@ -518,7 +527,7 @@ Definition read_cond_body (f : nat) (R : parsefuns) (s : str) : res (str * ast) 
     Ok (s8, ACond [n1; n2; n3]).
 
 (* the while loop of parser.read_expr_array *)
-Definition expr_array_loop_body (f : nat) (R : parsefuns) (s : str) (acc : list ast) : res (str * list ast) :=
+Definition expr_array_loop_body (f : nat) (L : lexfuns) (R : parsefuns) (s : str) (acc : list ast) : res (str * list ast) :=
   if starts1 s 93 || match s with [] => true | _ => false end
   then Ok (if starts1 s 93 then tl s else s, rev acc)
   else
@@ -530,25 +539,71 @@ Definition expr_array_loop_body (f : nat) (R : parsefuns) (s : str) (acc : list 
     else if starts1 s2 93 then Ok (tl s2, rev acc')
     else p_expr_array_loop R s2 acc'.
 
-Definition parse_bottom : parsefuns := {|
-  p_prog_loop := fun _ _ _ => OOF; p_expr := fun _ _ => OOF; p_expr_loop := fun _ _ _ _ _ => OOF;
-  p_fn_lit := fun _ => OOF; p_factor := fun _ _ => OOF; p_apply_adverbs := fun _ _ _ _ _ _ => OOF;
-  p_read_fn_args := fun _ => OOF; p_fn_args_loop := fun _ _ _ => OOF; p_read_cond := fun _ => OOF;
-  p_expr_array_loop := fun _ _ => OOF |}.
+Section Knot.
+Variable f : nat.
+Variables (prog_loop_f : bool -> str -> list ast -> res (str * list ast))
+          (expr_f : bool -> str -> res (str * ast))
+          (expr_loop_f : bool -> str -> ast -> str -> ast -> res (str * ast))
+          (fn_lit_f : str -> res (str * ast))
+          (factor_f : bool -> str -> res (str * ast))
+          (apply_adverbs_f : str -> ast -> str -> nat -> bool -> ast -> res (str * ast))
+          (read_fn_args_f : str -> res (str * list ast))
+          (fn_args_loop_f : str -> str -> list ast -> res (str * list ast))
+          (read_cond_f : str -> res (str * ast))
+          (expr_array_loop_f : str -> list ast -> res (str * list ast)).
+Definition mkrec : parsefuns :=
+  {| p_prog_loop := prog_loop_f; p_expr := expr_f; p_expr_loop := expr_loop_f; p_fn_lit := fn_lit_f;
+     p_factor := factor_f; p_apply_adverbs := apply_adverbs_f; p_read_fn_args := read_fn_args_f;
+     p_fn_args_loop := fn_args_loop_f; p_read_cond := read_cond_f; p_expr_array_loop := expr_array_loop_f |}.
+End Knot.
 
-Fixpoint parse_iter (fuel : nat) : parsefuns :=
-  match fuel with
-  | O => parse_bottom
-  | S f => let R := parse_iter f in
-           {| p_prog_loop := prog_loop_body f R; p_expr := expr_body f R; p_expr_loop := expr_loop_body f R;
-              p_fn_lit := fn_lit_body f R; p_factor := factor_body f R; p_apply_adverbs := apply_adverbs_body f R;
-              p_read_fn_args := read_fn_args_body f R; p_fn_args_loop := fn_args_loop_body f R;
-              p_read_cond := read_cond_body f R; p_expr_array_loop := expr_array_loop_body f R |}
-  end.
+(* tying the knot: X (S f) = X_body f (lexer at fuel f) (the ten parser functions at fuel f) *)
+Fixpoint prog_loop (fuel : nat) (ign : bool) (s : str) (acc : list ast) {struct fuel} : res (str * list ast) :=
+  match fuel with O => OOF | S f =>
+    prog_loop_body f (lexrec f) (mkrec (prog_loop f) (expr f) (expr_loop f) (fn_lit f) (factor f) (apply_adverbs f)
+                                       (read_fn_args f) (fn_args_loop f) (read_cond f) (expr_array_loop f)) ign s acc end
+with expr (fuel : nat) (ign : bool) (s : str) {struct fuel} : res (str * ast) :=
+  match fuel with O => OOF | S f =>
+    expr_body f (lexrec f) (mkrec (prog_loop f) (expr f) (expr_loop f) (fn_lit f) (factor f) (apply_adverbs f)
+                                  (read_fn_args f) (fn_args_loop f) (read_cond f) (expr_array_loop f)) ign s end
+with expr_loop (fuel : nat) (ign : bool) (i : str) (a : ast) (ii : str) (aa : ast) {struct fuel} : res (str * ast) :=
+  match fuel with O => OOF | S f =>
+    expr_loop_body f (lexrec f) (mkrec (prog_loop f) (expr f) (expr_loop f) (fn_lit f) (factor f) (apply_adverbs f)
+                                       (read_fn_args f) (fn_args_loop f) (read_cond f) (expr_array_loop f)) ign i a ii aa end
+with fn_lit (fuel : nat) (s : str) {struct fuel} : res (str * ast) :=
+  match fuel with O => OOF | S f =>
+    fn_lit_body f (lexrec f) (mkrec (prog_loop f) (expr f) (expr_loop f) (fn_lit f) (factor f) (apply_adverbs f)
+                                    (read_fn_args f) (fn_args_loop f) (read_cond f) (expr_array_loop f)) s end
+with factor (fuel : nat) (ign : bool) (s : str) {struct fuel} : res (str * ast) :=
+  match fuel with O => OOF | S f =>
+    factor_body f (lexrec f) (mkrec (prog_loop f) (expr f) (expr_loop f) (fn_lit f) (factor f) (apply_adverbs f)
+                                    (read_fn_args f) (fn_args_loop f) (read_cond f) (expr_array_loop f)) ign s end
+with apply_adverbs (fuel : nat) (s : str) (a : ast) (aa : str) (arity : nat) (dyad : bool) (dv : ast) {struct fuel}
+  : res (str * ast) :=
+  match fuel with O => OOF | S f =>
+    apply_adverbs_body f (lexrec f) (mkrec (prog_loop f) (expr f) (expr_loop f) (fn_lit f) (factor f) (apply_adverbs f)
+                                           (read_fn_args f) (fn_args_loop f) (read_cond f) (expr_array_loop f))
+                       s a aa arity dyad dv end
+with read_fn_args (fuel : nat) (s : str) {struct fuel} : res (str * list ast) :=
+  match fuel with O => OOF | S f =>
+    read_fn_args_body f (lexrec f) (mkrec (prog_loop f) (expr f) (expr_loop f) (fn_lit f) (factor f) (apply_adverbs f)
+                                          (read_fn_args f) (fn_args_loop f) (read_cond f) (expr_array_loop f)) s end
+with fn_args_loop (fuel : nat) (s k : str) (acc : list ast) {struct fuel} : res (str * list ast) :=
+  match fuel with O => OOF | S f =>
+    fn_args_loop_body f (lexrec f) (mkrec (prog_loop f) (expr f) (expr_loop f) (fn_lit f) (factor f) (apply_adverbs f)
+                                          (read_fn_args f) (fn_args_loop f) (read_cond f) (expr_array_loop f)) s k acc end
+with read_cond (fuel : nat) (s : str) {struct fuel} : res (str * ast) :=
+  match fuel with O => OOF | S f =>
+    read_cond_body f (lexrec f) (mkrec (prog_loop f) (expr f) (expr_loop f) (fn_lit f) (factor f) (apply_adverbs f)
+                                       (read_fn_args f) (fn_args_loop f) (read_cond f) (expr_array_loop f)) s end
+with expr_array_loop (fuel : nat) (s : str) (acc : list ast) {struct fuel} : res (str * list ast) :=
+  match fuel with O => OOF | S f =>
+    expr_array_loop_body f (lexrec f) (mkrec (prog_loop f) (expr f) (expr_loop f) (fn_lit f) (factor f) (apply_adverbs f)
+                                             (read_fn_args f) (fn_args_loop f) (read_cond f) (expr_array_loop f)) s acc end.
 
-Definition prog_loop (fuel : nat) := p_prog_loop (parse_iter fuel).
-Definition expr (fuel : nat) := p_expr (parse_iter fuel).
-Definition factor (fuel : nat) := p_factor (parse_iter fuel).
+Definition parserec (f : nat) : parsefuns :=
+  mkrec (prog_loop f) (expr f) (expr_loop f) (fn_lit f) (factor f) (apply_adverbs f)
+        (read_fn_args f) (fn_args_loop f) (read_cond f) (expr_array_loop f).
 
 (* KlongInterpreter.prog(t) *)
 Definition prog (fuel : nat) (t : str) : res (str * list ast) := prog_loop fuel false t [].
@@ -556,7 +611,7 @@ Definition prog (fuel : nat) (t : str) : res (str * list ast) := prog_loop fuel 
 End WithEnv.
 
 (* fuel that the theorems show to be enough for a text of n characters *)
-Definition fuel_for (n : nat) : nat := (16 * n + 16)%nat.
+Definition fuel_for (n : nat) : nat := (6 * n + 6)%nat.
 
 (* ---------------------------------------------------------------- ASCII instance of the character classes *)
 Definition ascii_isspace (c : Z) : bool := ((9 <=? c) && (c <=? 13)) || ((28 <=? c) && (c <=? 32)).
